@@ -187,6 +187,13 @@ class CutWorld(OracleWorld):
             return Sym(v.name, "u32")
         return None
 
+    def collection_contains(self, m, st, coll, item):
+        # membership of a character in a collection built from earlier characters: not a function of the
+        # current letter — both answers are possible (the extraction then reports the non-determinism)
+        n = st.ext.get("v:contains", 0) + 1
+        ans = st.choose(("contains?", n), [True, False])
+        return ip.boolean(ans)
+
 
 class Nondeterministic(AnalysisError):
     """A step has several outcomes although the letter is fixed: the code depends on something the
